@@ -11,6 +11,9 @@
 #define VS_MAPCAP 2
 #endif
 #define VS_SMALL_DNS_TABLES
+#ifndef HINT_GROUP
+#define HINT_GROUP 0
+#endif
 #include "prelude.h"
 #include "verif_api.cpp"
 #include "block.cpp"
@@ -109,9 +112,24 @@ extern "C" void h_hint_qr(void) {
     uint32_t qh = nondet_u32(), sh = nondet_u32(); uint64_t maxitems = vs_range(3);
     CdnsBlock* b = new_block(qh, sh, nondet_u8(), nondet_u8(), maxitems);
     GenericQueryResponse* gp = new GenericQueryResponse(); GenericQueryResponse& g = *gp;
-    ots(g.ts); os(g.client_ip); oi(g.client_port); oi(g.transaction_id); os(g.server_ip); oi(g.server_port); oi(g.qr_transport_flags); oi(g.qr_type); oi(g.qr_sig_flags);
-    oi(g.query_opcode); oi(g.qr_dns_flags); oi(g.query_rcode); oi(g.query_qdcount); oi(g.query_ancount); oi(g.query_nscount); oi(g.query_arcount); oi(g.query_edns_version);
-    oi(g.query_udp_size); oi(g.response_rcode); oi(g.client_hoplimit); oi(g.response_delay); oi(g.query_size); oi(g.response_size); oi(g.processing_flags); oi(g.round_trip_time);
+    // member groups (HINT_GROUP): the members of the other groups are concretely absent, so that each obligation stays inside the solver budget;
+    // the hint masks are fully symbolic in every group.  1: record scalars + client address + time   2: signature members + server address
+    // 0: everything symbolic (thorough)
+#if HINT_GROUP == 0 || HINT_GROUP == 1
+#define G1(x) x
+#else
+#define G1(x) ((void)0)
+#endif
+#if HINT_GROUP == 0 || HINT_GROUP == 2
+#define G2(x) x
+#else
+#define G2(x) ((void)0)
+#endif
+    G1(ots(g.ts)); G1(os(g.client_ip)); G1(oi(g.client_port)); G1(oi(g.transaction_id)); G1(oi(g.client_hoplimit)); G1(oi(g.response_delay)); G1(oi(g.query_size)); G1(oi(g.response_size));
+    G1(oi(g.processing_flags)); G1(oi(g.round_trip_time));
+    G2(os(g.server_ip)); G2(oi(g.server_port)); G2(oi(g.qr_transport_flags)); G2(oi(g.qr_type)); G2(oi(g.qr_sig_flags));
+    G2(oi(g.query_opcode)); G2(oi(g.qr_dns_flags)); G2(oi(g.query_rcode)); G2(oi(g.query_qdcount)); G2(oi(g.query_ancount)); G2(oi(g.query_nscount)); G2(oi(g.query_arcount)); G2(oi(g.query_edns_version));
+    G2(oi(g.query_udp_size)); G2(oi(g.response_rcode));
     boost::optional<BlockStatistics> none;
     bool full = b->add_question_response_record(g, none);
     __verif_assert(b->m_query_responses.size() <= 1, "at most one record stored per call (C12)");
